@@ -355,13 +355,11 @@ def replay(res, wd, cfg, drv, max_walks=None):
     res.cov["graph_states"] = len(g.labels); res.cov["graph_edges"] = len(g.edges); res.cov["covering_walks_total"] = total_walks
     if lines:
         res.sample({"replayed walk on SparseBitMap<1> (progs, thread per step)": lines[len(lines) // 2]})
-    # the replayed executions are histories of an arity-1 tuple set as well
-    for h in hists:
-        for e in h["events"]:
-            for k in ("t", "r"):
-                if k in e and isinstance(e[k], list) and e["e"] != "contains":
-                    pass
-    return hists, lines
+    covered = set()
+    for init, w in walks:
+        covered.update(w)
+    res.cov["graph_edges_replayed"] = len(covered)
+    return hists, lines       # the replayed executions are histories of an arity-1 tuple set as well
 
 # ------------------------------------------------------------------------------------------------ entry
 def run(tier, replay_path=None):
